@@ -28,11 +28,11 @@ extern int (*env_execvp_hook)(const char *file, char *const argv[]);
 
 enum { S_EXIT_AT_ONCE, S_DIE_TERM1, S_DIE_TERM2, S_DIE_TERM3, S_DIE_TERM5, S_DIE_ON_KILL,
        S_EXIT_BLOCK0, S_EXIT_BLOCK1, S_EXIT_BLOCK2, S_EXIT_BLOCK3, S_EXIT_BLOCK6, S_EXIT_BLOCK7,
-       S_EXIT_WAKE0, S_EXIT_WAKE1, S_EXIT_WAKE2, S_EXIT_WAKE6, NSCRIPT };
+       S_EXIT_WAKE0, S_EXIT_WAKE1, S_EXIT_WAKE2, S_EXIT_WAKE6, S_STOPCONT_TERM1, S_STOPCONT_IGNORE, NSCRIPT };
 static const char *sname[NSCRIPT] = { "exits-at-once", "dies-on-1st-TERM", "dies-on-2nd-TERM", "dies-on-3rd-TERM", "dies-on-5th-TERM",
 	"ignores-TERM", "exits-at-blocking-point-0", "exits-at-blocking-point-1", "exits-at-blocking-point-2", "exits-at-blocking-point-3",
 	"exits-at-blocking-point-6", "exits-at-blocking-point-7", "exits-as-sleep-0-ends", "exits-as-sleep-1-ends", "exits-as-sleep-2-ends",
-	"exits-as-sleep-6-ends" };
+	"exits-as-sleep-6-ends", "stops,continues,dies-on-1st-TERM", "stops,continues,ignores-TERM" };
 enum { CL_IMMEDIATE, CL_TIMER_NOW, CL_TIMER_1S, CL_TIMER_7S, CL_NEVER, NCLOSE };
 static const char *cname[NCLOSE] = { "close-right-after-submit", "close-from-timer-now", "close-from-timer-1s", "close-from-timer-7s", "never-closed" };
 
@@ -40,7 +40,7 @@ static int script, closemode, type_r;
 static struct iv_popen_request *req;
 static int data_fd = -1, side[2];
 static struct env_proc *child, *stranger;
-static int sigchld_due, nblocks, closed;
+static int sigchld_due, nblocks, closed, stopcont_phase;
 static struct timespec close_time;
 static struct iv_timer close_timer;
 static char *argvv[] = { "prog", NULL };
@@ -111,7 +111,7 @@ static void kill_hook(struct env_proc *p, int sig)
 	if (sig == SIGKILL)
 		child_dies(ENV_ST_KILLED(SIGKILL));
 	else if (sig == SIGTERM) {
-		if ((script == S_DIE_TERM1 && nterm >= 1) || (script == S_DIE_TERM2 && nterm >= 2) ||
+		if ((script == S_STOPCONT_TERM1 && nterm >= 1) || (script == S_DIE_TERM1 && nterm >= 1) || (script == S_DIE_TERM2 && nterm >= 2) ||
 		    (script == S_DIE_TERM3 && nterm >= 3) || (script == S_DIE_TERM5 && nterm >= 5))
 			child_dies(ENV_ST_KILLED(SIGTERM));
 	}
@@ -141,13 +141,21 @@ static void close_timer_cb(void *dummy)
 
 static int would_block(struct env_wait *w)
 {
-	static const int at[NSCRIPT] = { -1, -1, -1, -1, -1, -1, 0, 1, 2, 3, 6, 7, -1, -1, -1, -1 };
-	static const int atwake[NSCRIPT] = { -1, -1, -1, -1, -1, -1, -1, -1, -1, -1, -1, -1, 0, 1, 2, 6 };
+	static const int at[NSCRIPT] = { -1, -1, -1, -1, -1, -1, 0, 1, 2, 3, 6, 7, -1, -1, -1, -1, -1, -1 };
+	static const int atwake[NSCRIPT] = { -1, -1, -1, -1, -1, -1, -1, -1, -1, -1, -1, -1, 0, 1, 2, 6, -1, -1 };
 	int k = nblocks++;
 	int can_timeout = w->timeout_ns >= 0 || w->has_timerfd_deadline;
 	if (sigchld_due) {
 		sigchld_due = 0;
 		mc_obs("SIGCHLD");
+		raise(SIGCHLD);
+		return ENV_WB_REPOLL;
+	}
+	if ((script == S_STOPCONT_TERM1 || script == S_STOPCONT_IGNORE) && stopcont_phase < 2 && child->state != PR_ZOMBIE && child->state != PR_REAPED) {
+		/* job control: the child is stopped, later continued; it is alive all along */
+		env_proc_change(child, stopcont_phase == 0 ? ENV_ST_STOPPED(SIGSTOP) : ENV_ST_CONTINUED);
+		mc_obs(stopcont_phase == 0 ? "child:stopped" : "child:continued");
+		stopcont_phase++;
 		raise(SIGCHLD);
 		return ENV_WB_REPOLL;
 	}
@@ -173,7 +181,7 @@ static int would_block(struct env_wait *w)
 		return ENV_WB_REPOLL;
 	}
 	if (w->timeout_ns < 0 && !w->has_timerfd_deadline) {
-		if (closemode == CL_NEVER && (script == S_DIE_TERM1 || script == S_DIE_TERM2 || script == S_DIE_TERM3 || script == S_DIE_TERM5 || script == S_DIE_ON_KILL)) {
+		if (closemode == CL_NEVER && (script == S_STOPCONT_TERM1 || script == S_STOPCONT_IGNORE || script == S_DIE_TERM1 || script == S_DIE_TERM2 || script == S_DIE_TERM3 || script == S_DIE_TERM5 || script == S_DIE_ON_KILL)) {
 			/* nobody closes the request and the child never exits on its own: a legitimate steady state */
 			mc_obs("steady");
 			mc_done();
@@ -294,6 +302,34 @@ static void exec_one(void)
 		iv_main();
 	}
 	check_signal_log();
+	if (mc_arg_int("second", 1) && mc_choose(2, MC_CONFIG, "second-request")) {
+		/* a second request in the same thread, closed while its child (dies on the 1st TERM) is still running */
+		struct env_proc *first = child;
+		int fd2;
+		mc_obs("second-request");
+		script = S_DIE_TERM1;
+		closed = 0;
+		nblocks = 0;
+		env_fork_real_helper = 0;
+		req = malloc(sizeof(*req));
+		memset(req, 0xbe, sizeof(*req));
+		IV_POPEN_REQUEST_INIT(req);
+		req->file = "prog";
+		req->argv = argvv;
+		req->type = "r";
+		fd2 = iv_popen_request_submit(req);
+		if (fd2 < 0)
+			mc_fail("try-failed", "second iv_popen_request_submit failed");
+		env_forget_fd(fd2);
+		data_fd = fd2;
+		if (child == first)
+			mc_broken("second child not created");
+		do_close("second-immediate");
+		iv_main();
+		if (child->state != PR_REAPED)
+			mc_fail("popen-zombie", "second request: iv_main returned but the child (state %d, %d signals sent) was not terminated and reaped", child->state, child->nsig);
+		check_signal_log();
+	}
 	iv_deinit();
 	if (env_lib_allocs_live != allocs0)
 		mc_fail("leak-mem", "%ld library allocations live after iv_deinit", env_lib_allocs_live - allocs0);
